@@ -295,7 +295,8 @@ def generate(rng, tier):
                 kinds = ["fresh", "library-style"] + kinds[1:]
             feats = action_features(a) + (["constant"] if uses_constant(w, a) else []) + \
                 (["shadowing-quantifier"] if shadowed.get(a["name"]) else []) + \
-                (["several-pairs"] if enriched.get(a["name"]) else [])
+                (["several-pairs"] if enriched.get(a["name"]) else []) + \
+                (["constant-of-quantified-type"] if quantified_constant(w, a) else [])
             for kind in kinds:
                 m = make_mapping(rng, w, a, kind)
                 if m is None:
@@ -347,6 +348,15 @@ def literal_of(t, preds):
     return None
 
 
+def canon(t):
+    """a key that identifies a member up to the order of the members of and / or below it"""
+    if isinstance(t, str):
+        return t
+    if t and t[0] in ("and", "or"):
+        return json.dumps([t[0]] + sorted(set(canon(x) for x in t[1:])))
+    return json.dumps([canon(x) for x in t])
+
+
 class Planter:
     def __init__(self, rng, w, rho, params, p_image=0.75):
         self.rng, self.w, self.rho, self.p_image = rng, w, rho, p_image
@@ -372,7 +382,7 @@ class Planter:
     def plant_set(self, items, rho, where, bound):
         """add, beside members of one set, their images under rho (and the images of those: orbits of rotations)"""
         out = list(items)
-        present = {json.dumps(x) for x in out}
+        present = {canon(x) for x in out}
         k, added = 0, 0
         while k < len(out) and added < 4:
             x = out[k]
@@ -381,15 +391,15 @@ class Planter:
             if not kind:
                 continue
             img = image(x, rho)
-            if img == x or json.dumps(img) in present or mentions(img, self.out_of_scope):
+            if img == x or canon(img) in present or mentions(img, self.out_of_scope):
                 continue
             lit = literal_of(img, self.preds)
-            if lit and json.dumps(["not", lit[1]] if lit[0] else lit[1]) in present:
+            if lit and canon(["not", lit[1]] if lit[0] else lit[1]) in present:
                 continue                              # the image would contradict a sibling
             if self.rng.random() >= self.p_image:
                 continue
             out.append(img)
-            present.add(json.dumps(img))
+            present.add(canon(img))
             added += 1
             self.where.add("mirror:%s:%s" % (where, kind))
             if kind == "literal":
@@ -405,7 +415,7 @@ class Planter:
             img = image(a, rho)
             if img == a or mentions(img, self.out_of_scope):
                 continue
-            if any(json.dumps(y) in present for y in (a, img, ["not", a], ["not", img])):
+            if any(canon(y) in present for y in (a, img, ["not", a], ["not", img])):
                 continue
             return a if self.rng.random() < 0.65 else ["not", a]
         return None
@@ -423,7 +433,7 @@ class Planter:
                                                           bound + [(v, ty)], p_fresh * 0.6)]
             kids.append(k)
         if self.rng.random() < p_fresh:
-            lit = self.fresh_pair(scope, rho, {json.dumps(x) for x in kids})
+            lit = self.fresh_pair(scope, rho, {canon(x) for x in kids})
             if lit:
                 kids.append(lit)
         kids, _ = self.plant_set(kids, rho, where, bound)
@@ -433,7 +443,7 @@ class Planter:
         prims = [x for x in items if isinstance(x, list) and x and (literal_of(x, self.preds) or x[0] in NUM_EFFECT_HEADS)]
         rest = [x for x in items if x not in prims]
         if self.rng.random() < p_fresh:
-            lit = self.fresh_pair(scope, rho, {json.dumps(x) for x in prims})
+            lit = self.fresh_pair(scope, rho, {canon(x) for x in prims})
             if lit and budget_ok(lit):
                 prims.append(lit)
         prims, _ = self.plant_set(prims, rho, where, bound)
@@ -499,7 +509,7 @@ def plant_mirrors(rng, w, a, rho):
     for e in list(items):
         if isinstance(e, list) and e and e[0] == "when" and all(literal_of(x, pl.preds) for x in e[2][1:]) and rng.random() < 0.3:
             img = image(e, rho)
-            if img != e and not mentions(img, pl.out_of_scope):
+            if canon(img) != canon(e) and not mentions(img, pl.out_of_scope):
                 items.append(img)
                 pl.where.add("mirror:effect:when")
     rng.shuffle(items)
@@ -570,7 +580,7 @@ def with_fact(state, fact, present):
 
 
 def mirror_cases(rng, tier):
-    n_worlds = {"quick": 26, "thorough": 150}[tier]
+    n_worlds = {"quick": 18, "thorough": 150}[tier]
     cases = []
     while n_worlds > 0:
         w, a, ty, simple = mirror_world(rng)
@@ -587,8 +597,6 @@ def mirror_cases(rng, tier):
         # objects: at least two of the parameters' type (or below), so that calls with distinct arguments exist
         subs = [t for t in w.all_types() if w.is_sub(t, ty)]
         objs = [("o%d" % i, rng.choice(subs)) for i in range(rng.randint(2, 3))]
-        if rng.random() < 0.4:
-            objs.append(("o%d" % len(objs), rng.choice(w.all_types())))
         text = G.render(w.domain_tree("dom"), rng, noise=rng.random() < 0.2)
         universe = list(objs) + list(w.consts)
         calls = G.calls_for(rng, w, objs, a, limit=40)
@@ -597,7 +605,7 @@ def mirror_cases(rng, tier):
         probes = []
         for args in calls:
             binding = dict(zip([p for p, _ in a["params"]], args))
-            base = G.gen_state(rng, w, objs, density=rng.choice([0.5, 0.8]))
+            base = G.gen_state(rng, w, objs, density=rng.choice([0.35, 0.6]))
             if simple:
                 # make every literal of the precondition (and of the first when-condition) true
                 conds = list(a["pre"][1:])
@@ -624,7 +632,7 @@ def mirror_cases(rng, tier):
                 # one member holds, its image does not - and the other way round
                 states.append(with_fact(with_fact(base, g0, pos), g1, not pos))
                 states.append(with_fact(with_fact(base, g0, not pos), g1, pos))
-            for st in states[:5]:
+            for st in states[:4]:
                 probes.append({"args": args, "state": st, "problem_text": G.problem_text(w, objs, st, domain="dom")})
         feats = action_features(a) + (["constant"] if uses_constant(w, a) else []) + sorted(pl.where) + \
             (["mirror-simple"] if simple else []) + \
@@ -879,12 +887,12 @@ def run(args):
         fx, fx_skipped = fixture_cases(rng, args.tier)
         cases = corpus_cases() + handwritten_cases() + fx + generate(rng, args.tier) + exhaustive_cases(rng, {"quick": 2, "thorough": 30}[args.tier])
         cases += mirror_cases(rng, args.tier)
-        cases += sequence_cases(rng, cases, {"quick": 36, "thorough": 200}[args.tier])
+        cases += sequence_cases(rng, cases, {"quick": 24, "thorough": 200}[args.tier])
     cfg = run_impl([{"op": "core.numeric_config"}], nproc=1)[0]
     hashseeds = [0] if args.tier == "quick" else [0, 1]
     # the cases with mirrored set members run under further hash seeds (which member a set-walking renaming meets first -
     # and so whether one is lost - depends on the iteration order of the hash sets)
-    mirror_hashseeds = [1, 2] if args.tier == "quick" else [2, 3, 4]
+    mirror_hashseeds = [1] if args.tier == "quick" else [2, 3, 4]
     if args.replay:
         hashseeds, mirror_hashseeds = [int(data["input"].get("hashseed", 0))], []
     all_units, all_verdicts = [], ""
@@ -997,6 +1005,13 @@ def run(args):
                    "largest actions x (fresh ?param_i names, one overlapping kind), with probes along a short walk from the shipped problem where one exists. "
                    "Plus, for a few generated actions with >= 2 parameters (2 in the quick tier, 30 in the thorough tier), EVERY injective mapping of the "
                    "parameters into the parameters plus two fresh names (kind 'exhaustive': all permutations, overlaps and chains of that action). "
+                   "Plus 'mirror' worlds (18 quick / 150 thorough): an action with >= 2 parameters of one type whose operand sets and effect sets "
+                   "(top-level conjunction, nested and/or, forall bodies, when- and forall-when conditions, effect lists) hold members that are images "
+                   "of each other under the swap / permutation / rotation / chain / overlap that is then applied (and, as a control, under fresh names), "
+                   "with probe states in which one member holds and its image does not; these cases run under further hash seeds "
+                   "(hash_seeds_mirrored_cases) and a case whose observation does not change with the hash seed is not judged twice. "
+                   "Plus sequences of calls on one action (24 quick / 200 thorough): a mapping then its inverse, the same mapping two or three "
+                   "times, a second mapping chosen for the renamed action (kinds 'roundtrip:', 'twice:', 'then:', 'there-and-back-and-on:'). "
                    "Each case yields a signature unit, a text unit and (applicability, successor) units per probe. A unit is non-trivial when the "
                    "mapping moves at least one parameter, is of an admissible kind, the action/world uses an optional feature and (for probes) the "
                    "state has facts; distinct by input hash. Admissibility is re-decided inside Coq on the spec's reading of the action.")
